@@ -1048,6 +1048,39 @@ func (w *wk) checkOwnECDSA(mode string, d *big.Int, msg []byte, r, s *big.Int, w
 			w.sigFail("sign-"+mode+"/recovery-wrong-key", fmt.Sprintf("RecoverPublicKey(recid=%d) != signer key", found), wit)
 		}
 	}
+	// the other three recovery ids (a verifier of a signed message takes the id from a header byte that anybody can set):
+	// same answer as the reference - another key, or none
+	for id := 0; id < 4; id++ {
+		if id == found {
+			continue
+		}
+		var k2 *btc.PublicKey
+		pan := ""
+		func() {
+			defer func() {
+				if x := recover(); x != nil {
+					pan = fmt.Sprint(x)
+				}
+			}()
+			k2 = bs.RecoverPublicKey(msg, id)
+		}()
+		q, good := refec.ECDSARecover(r, s, msg, id)
+		got := ""
+		if k2 != nil && !k2.Infinity {
+			out := make([]byte, 65)
+			k2.GetPublicKey(out)
+			got = hx(out)
+		}
+		want := ""
+		if good {
+			want = hx(q.SerializeUncompressed())
+		}
+		if pan != "" || got != want {
+			wit["recid"], wit["recovered"], wit["reference"], wit["panic"] = id, got, want, pan
+			w.sigFail("sign-"+mode+"/recovery-other-recid", fmt.Sprintf("RecoverPublicKey(recid=%d) differs from the reference", id), wit)
+		}
+		w.run.Inc("recoveries_with_other_recids")
+	}
 	w.run.Distinct("recids_seen", found)
 	return found, true
 }
